@@ -159,11 +159,9 @@ MUTANTS = [
 """,
  """""", 1),
 ("C04", "m2-unregister-no-consumer-cleanup", "node/node.go",
- """	n.RouteTerminatePID(p.pid, reason)
-	// drop links and monitors created by this process
-	n.targetManager.CleanupConsumer(p.pid)
+ """	linkTargets, monitorTargets := n.targetManager.CleanupConsumer(p.pid)
 """,
- """	n.RouteTerminatePID(p.pid, reason)
+ """	var linkTargets, monitorTargets []any
 """, 1),
 ("C04", "m2-exit-message-type-regular", "node/core.go",
  """	qm.From = from
